@@ -4,4 +4,4 @@ import supcheck
 
 
 def run(ctx):
-    supcheck.run(ctx, "C09", kinds="api,deps,shutdown,single", n_quick=160, n_thorough=2000)
+    supcheck.run(ctx, "C09", kinds="api,deps,shutdown,single,stopstart", n_quick=180, n_thorough=2000)
